@@ -37,6 +37,7 @@ func (C12) Info() core.Info {
 
 func (C12) Gen(r *simrt.RNG, tier string) core.Case {
 	cfg := world.SwarmCfg(r)
+	world.Deepen(&cfg, r, tier)
 	cfg.Once, cfg.Built = false, false
 	cfg.Subs = r.Chance(2, 3)
 	cfg.Names = r.Chance(3, 4)
